@@ -199,3 +199,10 @@ Proof.
   intros Hk Hr Hc Hs. unfold keys_ok in Hk. destruct (s_rd s); try (now elim Hr); destruct Hk as (_ & Ha & Hsub);
     rewrite Hc; destruct src as [r|]; cbn; try assumption; apply Hsub; now apply Hs.
 Qed.
+
+Lemma Ptask_open c s src a b x : Ptask c s (TStream src a b (SOpen x)) <->
+  (x_chan x = chan_of_src src /\ (forall r, src = Some r -> In r (s_subs s)) /\ J c s x).
+Proof. destruct src; reflexivity. Qed.
+Lemma Ptask_end c s src a b x : Ptask c s (TStream src a b (SEnd x)) <->
+  (x_chan x = chan_of_src src /\ (forall r, src = Some r -> In r (s_subs s)) /\ J c s x /\ s_rd s = RdDone /\ x_inbox x = []).
+Proof. destruct src; reflexivity. Qed.
